@@ -71,6 +71,7 @@ extern Bool	emitIsGeneratedFile 	(FileName);	/* Examines contents */
 
 extern String	emitGetFileIdName	(EmitInfo);
 extern void	emitSetFileIdName	(String);
+extern String		emitFileIdNameGiven	(void);
 extern void	emitSetFileIdPrefix	(String);
 
 /*
